@@ -5,8 +5,9 @@
     vp8md      X N S PID I L T K PictureID TL0PICIDX TID Y KEYIDX          (13 nats)
     vp8desc    n s pid x  opt(M id)  opt(tl0)  opt(tid y)  opt(keyidx)  ign0 ignX ignTK
     depobs M   res(bytes) M head tail0 tail1 auxPanic freshSame twinSame
-    c11.dec    vp8desc payload k wire          => res(bytes) vp8md head
-    c11.rt     enable warm calls               => <n> (<m> (bytes res(bytes) vp8md head)*)*
+    c11.dec    vp8desc payload k wire          => res(bytes) vp8md head resZ(bytes)
+    c11.rt     enable warm calls               => <n> (<m> (bytes res(bytes) vp8md head resZ(bytes))*)*
+               (resZ: what a second receiver with SetZeroAllocation(true), fed the same packets, returned)
     c08.vp8    enable calls                    => <n> PayObs*
     c09.vp8    <n> obytes*                     => <n> (depobs vp8md)*
     vp9md      I P L F B E V Z PictureID TID U SID D list(PDiff) TL0PICIDX NS Y G NG list(Width) list(Height)
@@ -16,8 +17,8 @@
     hdrdesc    se <profile> <idx> | nk <profile> sf er | key <profile> sf er bit12 space range subX subY w h
     hdrfields  Profile ShowExisting Idx NonKey ShowFrame ErrRes opt(T BitDepth CS CR SX SY) opt(w-1 h-1) Width() Height()
     c12.hdr    opt(hdrdesc) wire               => res(hdrfields)
-    c12.dec    vp9desc payload k wire          => res(bytes) vp9md head
-    c12.rt     flex init <n> (mtu obytes opt(hdrdesc))*  => <n> (<m> (bytes res(bytes) vp9md head)*)*
+    c12.dec    vp9desc payload k wire          => res(bytes) vp9md head resZ(bytes)
+    c12.rt     flex init <n> (mtu obytes opt(hdrdesc))*  => <n> (<m> (bytes res(bytes) vp9md head resZ(bytes))*)*
     c08.vp9    flex init calls                 => <n> PayObs*
     c09.vp9    <n> obytes*                     => <n> (depobs vp9md)*
 -/
@@ -63,13 +64,33 @@ theorem c11DecR_of_dec (d : Spec.Rfc7741.Descriptor) (p : Bytes) (k : Nat) (w : 
     C11.dec d p k w o = true → c11DecR d p k w o = true := by
   intro h; simp [c11DecR, h]
 
+/-! #### receivers with `SetZeroAllocation(true)`
+
+  VP8Packet and VP9Packet inherit the switch from `videoDepacketizer` ("… allocations are needed for
+  Metadata and other optional values. If you don't need this information enabling SetZeroAllocation
+  gives you higher performance at a reduced feature set").  C11/C12 do not exclude such a receiver,
+  and what they say about the RETURNED BYTES ("returns the bytes that follow the descriptor",
+  "concatenating the … payloads … reproduces the frame", rejecting a cut descriptor) does not depend
+  on metadata.  Every packet is therefore also given to a second receiver with the switch on; its
+  result `resZ` is one more observation token.  The unchanged predicate is evaluated once more on
+  the observation in which `res` is replaced by `resZ` (metadata and `head` stay those of the
+  ordinary receiver, so nothing is demanded of the zero-allocation receiver's metadata).  The model
+  ignores the switch, as the code does: `resZ` of the model is its `res`. -/
+
+def c11DecZ (d : Spec.Rfc7741.Descriptor) (p : Bytes) (k : Nat) (w : Bytes) (o : C11.DecObs × Res Bytes) : Bool :=
+  c11DecR d p k w o.1 && c11DecR d p k w { o.1 with res := o.2 }
+
+theorem c11DecZ_of_decR (d : Spec.Rfc7741.Descriptor) (p : Bytes) (k : Nat) (w : Bytes) (o : C11.DecObs) :
+    c11DecR d p k w o = true → c11DecZ d p k w (o, o.res) = true := by
+  intro h; simp [c11DecZ, h]
+
 def c11Dec : Handler :=
   mkHandler
     (do let d ← rdVP8Desc; let p ← Rd.bytes; let k ← Rd.nat; let w ← Rd.bytes; pure (d, p, k, w))
-    (do let r ← Rd.resC Rd.bytes; let m ← rdVP8Md; let h ← Rd.bool
-        pure ({ res := r, md := m, head := h } : C11.DecObs))
-    (fun (_, _, k, w) => C11.obsDec w k)
-    (fun (d, p, k, w) o => c11DecR d p k w o)
+    (do let r ← Rd.resC Rd.bytes; let m ← rdVP8Md; let h ← Rd.bool; let rz ← Rd.resC Rd.bytes
+        pure (({ res := r, md := m, head := h } : C11.DecObs), rz))
+    (fun (_, _, k, w) => let o := C11.obsDec w k; (o, o.res))
+    (fun (d, p, k, w) o => c11DecZ d p k w o)
     (fun (d, _, _, _) => d.WF)
 
 def rdVP8Frag : Rd C11.FragObs := do
@@ -85,12 +106,30 @@ def c11RtWF (enable : Bool) : Nat → List (UInt16 × Option Bytes) → Bool
   | k, (m, i) :: cs =>
     decide (C11.hdrLen enable k < m.toNat) && !(i.getD []).isEmpty && c11RtWF enable (k + 1) cs
 
+/-- the ordinary receiver's observation / the same with every `res` replaced by the zero-allocation
+    receiver's result -/
+def c11Plain (o : List (List (C11.FragObs × Res Bytes))) : List (List C11.FragObs) := o.map (·.map (·.1))
+def c11Zero (o : List (List (C11.FragObs × Res Bytes))) : List (List C11.FragObs) :=
+  o.map (·.map (fun fz => { fz.1 with res := fz.2 }))
+def c11Pair (o : List (List C11.FragObs)) : List (List (C11.FragObs × Res Bytes)) :=
+  o.map (·.map (fun fr => (fr, fr.res)))
+
+def c11RtZ (e : Bool) (w : Nat) (cs : List (UInt16 × Option Bytes)) (o : List (List (C11.FragObs × Res Bytes))) : Bool :=
+  C11.rt e w cs (c11Plain o) && C11.rt e w cs (c11Zero o)
+
+theorem c11RtZ_of_rt (e : Bool) (w : Nat) (cs : List (UInt16 × Option Bytes)) (o : List (List C11.FragObs)) :
+    C11.rt e w cs o = true → c11RtZ e w cs (c11Pair o) = true := by
+  intro h
+  have h1 : c11Plain (c11Pair o) = o := by simp [c11Plain, c11Pair, Function.comp_def]
+  have h2 : c11Zero (c11Pair o) = o := by simp [c11Zero, c11Pair, Function.comp_def]
+  simp [c11RtZ, h1, h2, h]
+
 def c11Rt : Handler :=
   mkHandler
     (do let e ← Rd.bool; let w ← Rd.nat; let cs ← rdCalls; pure (e, w, cs))
-    (Rd.list (Rd.list rdVP8Frag))
-    (fun (e, w, cs) => C11.obsRt e w cs)
-    (fun (e, w, cs) o => C11.rt e w cs o)
+    (Rd.list (Rd.list (do let fr ← rdVP8Frag; let rz ← Rd.resC Rd.bytes; pure (fr, rz))))
+    (fun (e, w, cs) => c11Pair (C11.obsRt e w cs))
+    (fun (e, w, cs) o => c11RtZ e w cs o)
     (fun (e, w, cs) => c11RtWF e w cs)
 
 def c08Vp8 : Handler :=
@@ -213,13 +252,21 @@ theorem c12RtR_of_rt (f : Bool) (i : UInt16) (cs : List C12.Call) (o : List (Lis
     C12.rt f i cs o = true → c12RtR f i cs o = true := by
   intro h; simp [c12RtR, h]
 
+/-- with the result of the `SetZeroAllocation(true)` receiver (see `c11DecZ`) -/
+def c12DecZ (d : Spec.Vp9Rtp.Descriptor) (p : Bytes) (k : Nat) (w : Bytes) (o : C12.DecObs × Res Bytes) : Bool :=
+  c12DecR d p k w o.1 && c12DecR d p k w { o.1 with res := o.2 }
+
+theorem c12DecZ_of_decR (d : Spec.Vp9Rtp.Descriptor) (p : Bytes) (k : Nat) (w : Bytes) (o : C12.DecObs) :
+    c12DecR d p k w o = true → c12DecZ d p k w (o, o.res) = true := by
+  intro h; simp [c12DecZ, h]
+
 def c12Dec : Handler :=
   mkHandler
     (do let d ← rdVP9Desc; let p ← Rd.bytes; let k ← Rd.nat; let w ← Rd.bytes; pure (d, p, k, w))
-    (do let r ← Rd.resC Rd.bytes; let m ← rdVP9Md; let h ← Rd.bool
-        pure ({ res := r, md := m, head := h } : C12.DecObs))
-    (fun (_, _, k, w) => C12.obsDec w k)
-    (fun (d, p, k, w) o => c12DecR d p k w o)
+    (do let r ← Rd.resC Rd.bytes; let m ← rdVP9Md; let h ← Rd.bool; let rz ← Rd.resC Rd.bytes
+        pure (({ res := r, md := m, head := h } : C12.DecObs), rz))
+    (fun (_, _, k, w) => let o := C12.obsDec w k; (o, o.res))
+    (fun (d, p, k, w) o => c12DecZ d p k w o)
     (fun (d, _, _, _) => d.WF 5)
 
 def rdVP9Frag : Rd C12.FragObs := do
@@ -230,12 +277,30 @@ def rdVP9Call : Rd C12.Call := do
   let m ← Rd.u16; let b ← Rd.obytes; let d ← Rd.opt rdHdrDesc
   pure { mtu := m, frame := b, desc := d }
 
+def c12Plain (o : List (List (C12.FragObs × Res Bytes))) : List (List C12.FragObs) := o.map (·.map (·.1))
+def c12Zero (o : List (List (C12.FragObs × Res Bytes))) : List (List C12.FragObs) :=
+  o.map (·.map (fun fz => { fz.1 with res := fz.2 }))
+def c12Pair (o : List (List C12.FragObs)) : List (List (C12.FragObs × Res Bytes)) :=
+  o.map (·.map (fun fr => (fr, fr.res)))
+
+/-- `c12RtR` on the ordinary receiver's observation and on the one whose results are those of the
+    `SetZeroAllocation(true)` receiver (see `c11DecZ`) -/
+def c12RtZ (f : Bool) (i : UInt16) (cs : List C12.Call) (o : List (List (C12.FragObs × Res Bytes))) : Bool :=
+  c12RtR f i cs (c12Plain o) && c12RtR f i cs (c12Zero o)
+
+theorem c12RtZ_of_rtR (f : Bool) (i : UInt16) (cs : List C12.Call) (o : List (List C12.FragObs)) :
+    c12RtR f i cs o = true → c12RtZ f i cs (c12Pair o) = true := by
+  intro h
+  have h1 : c12Plain (c12Pair o) = o := by simp [c12Plain, c12Pair, Function.comp_def]
+  have h2 : c12Zero (c12Pair o) = o := by simp [c12Zero, c12Pair, Function.comp_def]
+  simp [c12RtZ, h1, h2, h]
+
 def c12Rt : Handler :=
   mkHandler
     (do let f ← Rd.bool; let i ← Rd.u16; let cs ← Rd.list rdVP9Call; pure (f, i, cs))
-    (Rd.list (Rd.list rdVP9Frag))
-    (fun (f, i, cs) => C12.obsRt f i cs)
-    (fun (f, i, cs) o => c12RtR f i cs o)
+    (Rd.list (Rd.list (do let fr ← rdVP9Frag; let rz ← Rd.resC Rd.bytes; pure (fr, rz))))
+    (fun (f, i, cs) => c12Pair (C12.obsRt f i cs))
+    (fun (f, i, cs) o => c12RtZ f i cs o)
     -- every call of the history is inside the property's domain ("sufficient MTU", a frame with a
     -- well-formed header): what a call outside it does to the running picture id is not claimed
     (fun (f, _, cs) => cs.all (C12.proper f))
